@@ -1,16 +1,16 @@
 #!/usr/bin/env python3
 """usage: gen_round.py <round-number>   -- writes /tmp/seed/<ID>r<N>.prompt.txt for all 18 properties from the
-previous round's prompt (which already lists the earlier known changes) + tools/seeding/known.py"""
+previous round's prompt (which already lists the earlier known changes) + the previous round's entries of tools/seeding/known.py"""
 import os, re, sys
 HERE = os.path.dirname(os.path.abspath(__file__))
 sys.path.insert(0, HERE)
-from known import KNOWN
+from known import BY_ROUND
 n = int(sys.argv[1])
 for i in range(1, 19):
     pid = "C%02d" % i
     prev = open("/tmp/seed/%sr%d.prompt.txt" % (pid, n - 1)).read()
     prev = prev.replace("%sr%d" % (pid, n - 1), "%sr%d" % (pid, n))
-    extra = "".join(" - %s\n" % k for k in KNOWN[pid])
+    extra = "".join(" - %s\n" % k for k in BY_ROUND[n - 1][pid])
     m = re.search(r"(IMPORTANT: .* changes for this property are already known.*?\n)((?: - .*\n)+)", prev)
     if not m:
         raise SystemExit("no known-list in previous prompt of " + pid)
